@@ -54,6 +54,41 @@ def run(F):
                 return from_param(rv["ops"][0], depth + 1)
             return False
 
+        # struct-update form: `Self { temperature: Some(temperature), ..self }` — one aggregate of the type of `self` whose operands are
+        # the parameter in one position and the fields of `self` in all others
+        for bi, si, st in b.stmts():
+            rv = st["rv"]
+            if not (rv["k"] == "agg" and rv["kind"].get("t") == "adt" and rv["kind"].get("fields") and len(rv["ops"]) == len(rv["kind"]["fields"])):
+                continue
+            owner = rv["kind"]["adt"]
+            if meth not in fields.get(owner, ()):
+                continue
+            pos = [i for i, o in enumerate(rv["ops"]) if from_param(o)]
+            selfish = 0
+            shuffled = None
+            for i, o in enumerate(rv["ops"]):
+                if o.get("k") in ("copy", "move") and o["place"]["l"] == 1:
+                    fs_ = [p for p in o["place"]["p"] if isinstance(p, dict) and "f" in p]
+                    if len(fs_) == 1 and fs_[0].get("n"):
+                        selfish += 1
+                        if fs_[0]["n"] != str(rv["kind"]["fields"][i]):
+                            shuffled = (fs_[0]["n"], str(rv["kind"]["fields"][i]))
+            if len(pos) != 1 or selfish < len(rv["ops"]) - 2:
+                continue
+            n += 1
+            written = str(rv["kind"]["fields"][pos[0]])
+            iid = "setter|%s.%s" % (owner.split("::")[-1], meth)
+            where = st.get("span", b.file_line())
+            if written == meth and not shuffled:
+                r.inst(iid, where, "ok", form="struct update")
+            elif shuffled:
+                r.inst(iid, where, "violation")
+                r.fail(iid + "|shuffle", where, "%s::%s rebuilds `self` with field `%s` taken from `%s`" % (owner.split("::")[-1], meth, shuffled[1], shuffled[0]))
+            else:
+                r.inst(iid, where, "violation")
+                r.fail(iid, where,
+                       "%s::%s stores its argument in the field `%s` although the type has a field `%s`: the value given for one input of the "
+                       "specification silently replaces another" % (owner.split("::")[-1], meth, written, meth))
         for bi, si, st in b.stmts():
             pl = st["place"]
             if pl["l"] != 1:
